@@ -9,8 +9,8 @@ from vlib import core, gen
 PROP = "C19"
 SIG_PINNED = "C19:undelivered-wrapper-pins-session-after-listener-close"
 META = {
-    "technique": "Coq proof: reference-count and exactly-once-delivery invariants over all event histories of a model of net_listener.go (listener Close split into its three steps, both outcomes of the delivery select, double Close, session death), Read/Write contract of linkedBuffer.read / copyWriteAndFlush by refinement to a byte queue; tie: real Listen/Accept/net.Conn driven by generated scenarios, history accepted by the model run as a non-deterministic acceptor (vm_compute)",
-    "level_text": "PARTIAL. Proved for every history: C19_once (each wrapped stream is sent into the backlog at most once, received at most once, FIFO), C19_refcount (WaitGroup counter never negative = listener ref + unclosed wrappers), C19_refcount_closed_iff, C19_io_read/_read_wait/_write/_stream (io.Reader/io.Writer contracts for every slicing and size). The full 'sessions end after listener Close once their conns are closed' is REFUTED on the faithful model (C19_refuted: a wrapper left in the backlog or dropped by the select keeps its reference) and reproduced on the real code; C19_partial_sessions_end holds when every wrapper was delivered and closed.",
+    "technique": "Coq proof: reference-count, exactly-once-placement and backlog-drain invariants over all event histories of a model of net_listener.go (any number of overlapping listener.Close calls stepped action by action, both outcomes of the delivery select and their follow-ups, double Close, session death), Read/Write contract of linkedBuffer.read / copyWriteAndFlush by refinement to a byte queue; tie: real Listen/Accept/net.Conn driven by generated scenarios, history accepted by the model run as a non-deterministic acceptor (vm_compute)",
+    "level_text": "PARTIAL. Proved for every history: C19_once (each wrapped stream is sent into the backlog at most once, received at most once, FIFO), C19_refcount (WaitGroup counter never negative = listener ref + unclosed wrappers), C19_refcount_closed_iff, C19_io_read/_read_wait/_write/_stream (io.Reader/io.Writer contracts for every slicing and size). C19_sessions_end: the FULL statement 'after listener.Close, at rest, every session whose Accept-ed conns are closed is closed' holds for the repaired adapter (it was refuted before the fix: a conn left in the backlog or dropped by the select pinned its session; both histories are kept as regression scenarios 0/1 and as Coq examples, together with the enqueue-after-drain race).",
     "level_note": "Observed, not proved: that goroutines parked in wg.Wait/select/Accept are eventually scheduled, deadline behaviour (C11), the byte transport (C06), handshake timing. Trusted: coqc kernel, the harness, Go runtime semantics of channels / select / sync.WaitGroup (incl. the documented misuse window of Add-from-zero concurrent with Wait, which the model's atomic Done cannot exhibit).",
 }
 
@@ -200,5 +200,5 @@ def check(run):
 def replay(path):
     r = json.load(open(path))
     print(json.dumps(r, indent=1)[:6000])
-    print("re-run: VERIF_SEED=%s ./check C19 --tier %s   (scenario ids 0 and 1 are the deterministic histories of the pinned-session finding)" % (r.get("seed"), r.get("tier")))
+    print("re-run: VERIF_SEED=%s ./check C19 --tier %s   (scenario ids 0 and 1 are the deterministic regression histories of the repaired pinned-session defect)" % (r.get("seed"), r.get("tier")))
     return 0
